@@ -247,6 +247,10 @@ from .cnative import wrapper_state as cnative_wrapper_state
 
 
 def run(repo, rep, tier):
+    rep.rule("R-C07-7", "no result is patched by a store through .values / .data: for dask-backed data the store goes into a temporary and is lost, "
+                        "so the lazy result differs from the in-memory one")
+    from .shared import lazy_safe_writes
+    lazy_safe_writes(repo, rep, "R-C07-7")
     rep.rule("R-C07-1", "at every apply_ufunc(dask='parallelized') each argument with core dimensions is a dimension "
                         "coordinate, or is forced to a single chunk along them (chunk({d: -1}) reaching the call on every "
                         "path), or the site passes allow_rechunk=True")
